@@ -122,11 +122,12 @@ Section GatherP.
 
   (* buffer-directory path: the gathered list itself is independent of the listing order *)
   Theorem final_files_schedule_independent : forall name chunk_of_name co seeds s1 s2,
+    (forall i, In i s1 -> (chunk_of_name (name i) < length seeds)%nat) ->
     Permutation s1 s2 ->
     gather_files A work name chunk_of_name seeds s1 = gather_files A work name chunk_of_name seeds s2 /\
     final_files A work name chunk_of_name co seeds s1 = final_files A work name chunk_of_name co seeds s2.
   Proof.
-    intros name cn co seeds s1 s2 HP.
+    intros name cn co seeds s1 s2 _ HP.
     assert (E : gather_files A work name cn seeds s1 = gather_files A work name cn seeds s2).
     { unfold gather_files. rewrite (zsort_perm_eq (map name s1) (map name s2)); [reflexivity|].
       apply Permutation_map. exact HP. }
